@@ -2,8 +2,11 @@ package verifdrv
 
 import (
 	"fmt"
+	"io"
 	"os"
+	"regexp"
 	"strings"
+	"syscall"
 )
 
 func init() {
@@ -159,6 +162,73 @@ func closedPipe(e *env) error {
 					map[string]interface{}{"cmd": args, "sink": sink})
 			}
 		}
+	}
+	return nil
+}
+
+func init() {
+	modes["pipe-input"] = pipeInput
+}
+
+// pipeInput (C10: whenever a command succeeds, every heading and entry of the file has been taken into account): the log
+// resp. the recipe book is a named pipe - a file whose size is not known before it has been read to its end.  The real
+// binary must print what it prints for the same content in a regular file.
+func pipeInput(e *env) error {
+	dir := os.Getenv("VERIF_SCRATCH") + "/pipein"
+	os.MkdirAll(dir, 0o755)
+	log := longLog(40)
+	writeFile(dir+"/food.yaml", fixedBook)
+	writeFile(dir+"/log.yaml", log)
+	feed := func(path, content string) {
+		os.Remove(path)
+		if err := syscall.Mkfifo(path, 0o644); err != nil {
+			return
+		}
+		go func() {
+			if f, err := os.OpenFile(path, os.O_WRONLY, 0); err == nil {
+				io.WriteString(f, content)
+				f.Close()
+			}
+		}()
+	}
+	for _, c := range []struct {
+		args []string
+		pipe string // which input comes through the pipe
+	}{
+		{[]string{"csv", "log"}, "log"}, {[]string{"--no-color", "reg"}, "log"}, {[]string{"print"}, "log"}, {[]string{"bal"}, "log"}, {[]string{"report", "quantity"}, "log"},
+		{[]string{"stats"}, "log"}, {[]string{"stats"}, "book"},
+		{[]string{"csv", "database"}, "book"}, {[]string{"csv", "database-resolved"}, "book"}, {[]string{"--no-color", "reg"}, "book"}, {[]string{"report", "element-total", "calories"}, "book"},
+	} {
+		want := runBinary(dir, nil, nil, c.args...)
+		e.sum.Runs++
+		if want.Exit != 0 {
+			continue
+		}
+		args := append([]string{}, c.args...)
+		if c.pipe == "log" {
+			feed(dir+"/log.fifo", log)
+			args = append([]string{"-l", dir + "/log.fifo"}, args...)
+		} else {
+			feed(dir+"/food.fifo", fixedBook)
+			args = append([]string{"-d", dir + "/food.fifo"}, args...)
+		}
+		got := runBinary(dir, nil, nil, args...)
+		e.sum.Runs++
+		e.sum.Cases++
+		e.sum.Nontrivial++
+		if got.TimedOut {
+			e.mismatch("cli-hang", "cmd/hranoprovod-cli", fmt.Sprintf("binary %v does not exit with the %s coming through a named pipe", args, c.pipe), map[string]interface{}{"args": args})
+		} else if got.Exit == 0 && c.args[0] == "stats" {
+			// stats names the files it read: compare the counts
+			cnt := regexp.MustCompile(`(?m)^\s*(Database|Log) records:\s*(\d+)`)
+			if fmt.Sprint(cnt.FindAllStringSubmatch(got.Stdout, -1)) != fmt.Sprint(cnt.FindAllStringSubmatch(want.Stdout, -1)) {
+				e.mismatch("cli-unreadable-reported-as-none", "cmd/hranoprovod-cli/internal/stats", fmt.Sprintf("binary %v: the %s comes through a named pipe; stats counts %v, for the same content in regular files %v", args, c.pipe, cnt.FindAllString(got.Stdout, -1), cnt.FindAllString(want.Stdout, -1)), map[string]interface{}{"args": args})
+			}
+		} else if got.Exit == 0 && got.Stdout != want.Stdout {
+			e.mismatch("cli-unreadable-reported-as-none", "cmd/hranoprovod-cli/internal/utils/utils.go", fmt.Sprintf("binary %v: the %s comes through a named pipe; the command succeeds and prints %q, for the same content in a regular file it prints %q", args, c.pipe, trunc(got.Stdout), trunc(want.Stdout)), map[string]interface{}{"args": args})
+		}
+		os.Remove(dir + "/log.fifo")
+		os.Remove(dir + "/food.fifo")
 	}
 	return nil
 }
